@@ -226,6 +226,16 @@ package network
 //@ func GeneralMultipartSerializer loop 3
 //@   invariant live: body != nil
 
+// The default JSON (de)serializers: the deserializer hands back the caller's own target (whatever encoding/json wrote into it)
+// together with Unmarshal's error; the serializer returns no body when Marshal fails.  What encoding/json reads and writes is
+// inside the library and not specified here.
+//@ func JSONBodyDeserializer
+//@   prop C17
+//@   ensures same-target: r0 == target
+//@ func JSONBodySerializer
+//@   prop C17
+//@   ensures error-no-body: r1 != nil ==> untyped(r0)
+
 // decodeResponseBody never panics: a read error or a deserializer error comes back as Err on the same response object; the
 // deserializer is called exactly once with the bytes read and the caller's target; its result becomes TargetObject only when it
 // is a *R (whatever a custom deserializer returns)
